@@ -1408,3 +1408,7 @@ mod tests {
         assert!(cookie.is_some());
     }
 }
+
+#[cfg(all(test, pendulum_project_ntpd_rs_verif))]
+#[path = "/verif/harness/ntp-proto/hook_packet__extension_fields.rs"]
+mod verif_hook;
